@@ -16,7 +16,6 @@
 
 /* max_splits stopped the splitting: the last piece is the unsplit remainder */
 #define SPLIT_CAPPED(ret, max_splits) ((max_splits) != 0 && (ret)->size - 1 == (max_splits))
-#define IN_PIECE(k) ((k) >= g_pstart && (k) - g_pstart < g_plen)
 
 void split(vvec* ret, const vstr* s, char delim, size_t max_splits)
 VEC_REQ(ret) SRC_REQ(s)
@@ -28,7 +27,7 @@ __CPROVER_ensures(g_pj < ret->size ==> (g_pstart <= s->size && g_plen <= s->size
 __CPROVER_ensures(g_pj == 0 ==> g_pstart == 0)
 __CPROVER_ensures(g_pj + 1 < ret->size ==> (g_nstart == g_pstart + g_plen + 1 && g_nstart <= s->size && s->data[g_pstart + g_plen] == delim))
 __CPROVER_ensures(g_pj + 1 == ret->size ==> g_pstart + g_plen == s->size)
-__CPROVER_ensures((g_pj < ret->size && !(SPLIT_CAPPED(ret, max_splits) && g_pj + 1 == ret->size) && IN_PIECE(g_sk)) ==> s->data[g_sk] != delim)
+__CPROVER_ensures((g_pj < ret->size && !(SPLIT_CAPPED(ret, max_splits) && g_pj + 1 == ret->size) && g_rk < g_plen) ==> s->data[g_pstart + g_rk] != delim)
 __CPROVER_assigns(verif_exc, ret->size, g_pstart, g_plen, g_nstart);
 
 
@@ -54,7 +53,7 @@ extern size_t g_pjs, g_pjl, g_srcsize; extern const char* g_srcd;
 __CPROVER_ensures(items->n == 0 ==> ret->size == 0) \
 __CPROVER_ensures((g_pj < items->n && g_pj == 0) ==> g_joff == 0) \
 __CPROVER_ensures((g_pj < items->n && PJ_OK(items)) ==> (g_joff <= ret->size && PJ_LEN(items) <= ret->size - g_joff)) \
-__CPROVER_ensures((g_pj < items->n && PJ_OK(items) && g_ok >= g_joff && g_ok - g_joff < PJ_LEN(items)) ==> g_oval == g_srcd[PJ_START(items) + (g_ok - g_joff)]) \
+__CPROVER_ensures((g_pj < items->n && PJ_OK(items) && g_obase == g_joff && g_rk < PJ_LEN(items)) ==> g_oval == g_srcd[PJ_START(items) + g_rk]) \
 __CPROVER_ensures((g_pj + 1 < items->n && PJ_OK(items)) ==> g_joff2 == g_joff + PJ_LEN(items) + (SEPLEN)) \
 __CPROVER_ensures((g_pj + 1 == items->n && PJ_OK(items)) ==> ret->size == g_joff + PJ_LEN(items))
 
@@ -62,7 +61,7 @@ void join_delim(vout* ret, const vsvec* items, char delim)
 OUT_REQ(ret) ITEMS_REQ(items)
 JOIN_GHOST_REQ(items)
 JOIN_ENSURES(1)
-__CPROVER_ensures((g_pj + 1 < items->n && PJ_OK(items) && g_ok == g_joff + PJ_LEN(items)) ==> g_oval == delim)
+__CPROVER_ensures((g_pj + 1 < items->n && PJ_OK(items) && g_obase == g_joff + PJ_LEN(items) && g_rk == 0) ==> g_oval == delim)
 __CPROVER_assigns(ret->size, g_oval, g_joff, g_joff2);
 
 void join_plain(vout* ret, const vsvec* items)
